@@ -216,7 +216,8 @@ class Gen:
                  'poke', 'cstr', 'cstr', 'attach', 'attach', 'repc', 'reps', 'reps', 'lower', 'upper', 'trim', 'printf', 'join',
                  'substr', 'tokc', 'toks', 'split', 'eq', 'cmp', 'cmpn', 'cmpi', 'cmpin', 'eqi', 'findc', 'findlc', 'findcf',
                  'finds', 'findsf', 'findo', 'findof', 'findls', 'findlo', 'starts', 'ends', 'len', 'drop', 'appo', 'appo', 'printfs',
-                 'eqlit', 'splitset', 'fromprintf', 'stat', 'stat']
+                 'eqlit', 'splitset', 'fromprintf', 'stat', 'stat',
+                 'pluseq', 'pluseqc', 'plus', 'pluslit', 'plusasg', 'plusasg', 'frombool', 'fromcstr', 'fromcstrn', 'tobool', 'tobool', 'char']
         if self.allowed:
             kinds = [k for k in kinds if k in self.allowed]
         what = r.choice(kinds)
@@ -478,13 +479,115 @@ class Gen:
             if r.random() < 0.4:
                 cands = [i for i, y in enumerate(sh.vars) if i != v and y.val[:1] == x.val[:1]]
                 if cands: u = r.choice(cands)
-            q = r.choice(['scmp', 'scmpn', 'scmpi', 'scmpin', 'eqin', 'eqin', 'sstarts', 'sstarts', 'slen', 'sfindc', 'sfindlc'])
+            q = r.choice(['scmp', 'scmpn', 'scmpi', 'scmpin', 'eqin', 'eqin', 'sstarts', 'sstarts', 'slen', 'sfindc', 'sfindlc',
+                          'sfinds', 'sfinds', 'sfindo', 'sfindo'])
+            if q in ('sfinds', 'sfindo') and self.nulfree(v):
+                # the needle / the character set is a variable too: a short one, else a new one cut out of v
+                short = [i for i, y in enumerate(sh.vars) if len(y.val) <= 3 and 0 not in y.val]
+                if short and r.random() < 0.6:
+                    u = r.choice(short)
+                elif not full:
+                    d = bytes(c for c in self.piece_of(v) if c != 0)
+                    sh.ngrp += 1
+                    sh.vars.append(Var(d, 'O', or3(len(d)), sh.ngrp)); self.emit('buf ' + hexs(d), 'ctor/buffer')
+                    u = len(sh.vars) - 1
             if q != 'eqin' and not (self.nulfree(v) and self.nulfree(u)): q = 'eqin'
             m = len(sh.vars[u].val)
             if q in ('scmpn', 'scmpin', 'eqin'): k = r.choice([0, 1, n, m, n + 1, m + 1, min(n, m), r.randrange(0, n + 2)])
             elif q in ('sfindc', 'sfindlc'): k = r.choice(list(x.val) or ALPHA_TEXT) if r.random() < 0.7 else r.choice(ALPHA_TEXT)
             else: k = 0
             self.emit('stat %s %d %d %d' % (q, v, u, k), 'static/' + q + ('/self' if u == v else ''))
+        elif what == 'pluseq':
+            u = self.other(v)
+            nv_ = x.val + sh.vars[u].val
+            lab = mutate_known(nv_, n, len(nv_))
+            self.emit('pluseq %d %d' % (v, u), 'operator+=(String)/%s/%s%s' % (lab, 'self' if u == v else 'other', shared))
+        elif what == 'pluseqc':
+            c = r.choice(self.alpha)
+            lab = mutate_known(x.val + bytes([c]), n, n + 1)
+            self.emit('pluseqc %d %d' % (v, c), 'operator+=(char)/' + lab + shared)
+        elif what in ('plus', 'pluslit', 'plusasg'):
+            if what != 'plusasg' and full: return self.step()
+            if what == 'plusasg':
+                # d = a + b with every pattern of coincidence between d, a and b
+                pat = r.choice(['ddd', 'dda', 'dad', 'daa', 'dab', 'dab'])
+                d_ = v
+                a_ = d_ if pat[1] == 'd' else self.other(d_)
+                b_ = d_ if pat[2] == 'd' else (a_ if pat[2] == pat[1] else self.other(d_))
+            else:
+                a_ = v
+                b_ = self.other(v)
+            xa = sh.vars[a_]
+            if what == 'pluslit':
+                lit = self.cdata(min(self.n(6), 39)) if not self.binary or r.random() < 0.5 else self.data(min(self.n(6), 39))
+                sh.regs.append(lit + b'\0')
+                rhs = lit
+            else:
+                rhs = sh.vars[b_].val
+            val = xa.val + rhs
+            # the temporary String( *this): shares an owned block (then append reallocates), deep-copies a view
+            if xa.kind == 'V' and len(val) <= or3(len(xa.val)): cap, how = or3(len(xa.val)), 'temp-inplace'
+            else: cap, how = or3(len(val)), 'temp-realloc'
+            lab = '%s/%s/%s' % (xa.kind + ('' if xa.term else 'u'), how, 'rhs-empty' if not rhs else 'rhs')
+            if what == 'plus':
+                sh.ngrp += 1
+                sh.vars.append(Var(val, 'O', cap, sh.ngrp))
+                self.emit('plus %d %d' % (a_, b_), 'operator+(String)/' + lab + ('/self' if a_ == b_ else ''))
+            elif what == 'pluslit':
+                sh.ngrp += 1
+                sh.vars.append(Var(val, 'O', cap, sh.ngrp))
+                self.emit('pluslit %d %s' % (a_, hexs(lit)), 'operator+(literal)/' + lab)
+            else:
+                kd_ = sh.vars[d_].kind + ('' if sh.vars[d_].term else 'u') + ('/shared' if sh.refs(d_) > 1 else '')
+                sh.own(d_, val, cap)
+                self.emit('plusasg %d %d %d' % (d_, a_, b_), 'd=a+b/%s/pattern-%s/into-%s' % (lab, pat, kd_))
+        elif what == 'frombool':
+            if full: return self.step()
+            b = r.randrange(2)
+            t_ = b'true' if b else b'false'
+            sh.regs.append(t_ + b'\0')
+            sh.vars.append(Var(t_, 'V', 0, None, True))
+            self.emit('frombool %d' % b, 'fromBool/%d' % b)
+        elif what == 'fromcstr':
+            if full: return self.step()
+            d = self.cdata(self.n())
+            sh.ngrp += 1
+            sh.vars.append(Var(d, 'O', or3(len(d)), sh.ngrp))
+            self.emit('fromcstr ' + hexs(d), 'fromCString(str)/' + ('empty' if not d else 'text'))
+        elif what == 'fromcstrn':
+            if full: return self.step()
+            d = self.data()
+            k = r.choice([0, len(d), len(d), r.randrange(len(d) + 1)])
+            sh.ngrp += 1
+            sh.vars.append(Var(d[:k], 'O', or3(k), sh.ngrp))
+            self.emit('fromcstrn %s %d' % (hexs(d), k), 'fromCString(str,len)/' + ('all' if k == len(d) else 'prefix') + ('/nul-inside' if 0 in d[:k] else ''))
+        elif what == 'tobool':
+            # mostly on texts near the false / true border: put one into the variable first
+            if r.random() < 0.75:
+                t_ = self.boolish()
+                how = r.choice(['attach-unterminated', 'attach-terminated', 'assign-buffer', 'assign-buffer'])
+                if how.startswith('attach') or full:
+                    tail = b'\0' if how == 'attach-terminated' else bytes([r.choice([0x21, 0x30, 0x2e])])
+                    self.emit('reg ' + hexs(t_ + tail), 'region'); sh.regs.append(t_ + tail)
+                    x.val, x.kind, x.cap, x.grp, x.term = t_, 'V', 0, None, tail == b'\0'
+                    self.emit('attach %d %d 0 %d' % (v, len(sh.regs) - 1, len(t_)), 'attach/' + kd + '/' + ('term' if x.term else 'unterm'))
+                else:
+                    sh.ngrp += 1
+                    sh.vars.append(Var(t_, 'O', or3(len(t_)), sh.ngrp)); self.emit('buf ' + hexs(t_), 'ctor/buffer')
+                    sh.assign(v, len(sh.vars) - 1)
+                    self.emit('asg %d %d' % (v, len(sh.vars) - 1), 'assign/%s<-O' % kd)
+            if not self.nulfree(v): return self.step()
+            x = sh.vars[v]; val = x.val
+            early = (not val) or val.lower() == b'false' or val == b'0'
+            lab0 = 'early' if early else sh.cstr(v)
+            import re as _re
+            res = not (early or (_re.fullmatch(rb'0*\.0*', val) is not None and val != b'.'))
+            self.emit('tobool %d' % v, 'toBool/%s/%s' % ('true' if res else 'false', lab0))
+        elif what == 'char':
+            q = r.choice(['lower', 'upper', 'isspace', 'isalnum', 'isalpha', 'isdigit', 'islower', 'isprint', 'ispunct', 'isupper', 'isxdigit'])
+            c = r.choice([0, 8, 9, 13, 14, 31, 32, 33, 47, 48, 57, 58, 64, 65, 70, 71, 90, 91, 96, 97, 102, 103, 122, 123, 126, 127, 128, 137, 141, 160, 255]) \
+                if r.random() < 0.6 else r.randrange(256)
+            self.emit('char %s %d' % (q, c), 'char/' + q)
         elif what == 'len':
             self.emit('len %d' % v, 'len')
         elif what == 'drop':
@@ -493,6 +596,16 @@ class Gen:
             self.emit('drop', 'dtor' + ('/shared' if False else ''))
         else:
             return self.step()
+
+    BOOLISH = [b'', b'0', b'00', b'000', b'0.0', b'0.', b'.0', b'.', b'00.000', b'.00', b'0.00x', b'0.01', b'0.0.', b'0..0', b'..0', b'x0.0',
+               b'false', b'FALSE', b'FaLsE', b'falsE', b'false ', b' false', b'fals', b'falsee', b'true', b'1', b'0 ', b' 0', b'-0', b'+0.0',
+               b'0x', b'0.0\x80', b'\xff', b'0,0', b'O.O']
+
+    def boolish(self):
+        r = self.rng
+        if r.random() < 0.6:
+            return r.choice(self.BOOLISH)
+        return bytes(r.choice(b'000..x') for _ in range(r.randrange(0, 7)))
 
     def printf_shadow(self, v, d):
         """String::printf keeps the old data in a temporary, so its detach(0, 200) always reallocates"""
@@ -520,6 +633,33 @@ class Gen:
 CORE_OPS = ['apps', 'appb', 'appc', 'appo', 'pres', 'preb', 'asg', 'copy-mutate', 'resize', 'reserve', 'clear', 'detach', 'poke', 'cstr',
             'attach', 'eq', 'len', 'drop']
 
+# round 3: the concatenation operators between variables in every representation (empty, literal, unterminated view,
+# owned, shared), with the variable itself on any side, plus what changes representations in between
+CONCAT_OPS = ['pluseq', 'pluseq', 'pluseqc', 'plus', 'plus', 'pluslit', 'plusasg', 'plusasg', 'plusasg', 'copy-mutate', 'asg', 'attach',
+              'attach', 'cstr', 'clear', 'drop', 'reserve', 'resize', 'eq', 'len', 'appc', 'frombool', 'fromcstr', 'fromcstrn']
+
+CHAR_QUERIES = ['lower', 'upper', 'isspace', 'isalnum', 'isalpha', 'isdigit', 'islower', 'isprint', 'ispunct', 'isupper', 'isxdigit']
+
+
+def char_cases():
+    """every static char function on every byte: 11 cases of 256 operations"""
+    return [['char %s %d' % (q, c) for c in range(256)] for q in CHAR_QUERIES]
+
+
+def tobool_cases(maxlen):
+    """toBool on every text over {'0', '.', 'x'} up to maxlen and on the listed border texts, held as an owned buffer, as
+    an UNTERMINATED attached window (the C-string view has to detach first) and as a literal"""
+    texts = [bytes(t) for k in range(maxlen + 1) for t in itertools.product(b'0.x', repeat=k)]
+    texts += [t for t in Gen.BOOLISH if t not in texts]
+    out = []
+    for t in texts:
+        ops = ['buf ' + hexs(t), 'tobool 0', 'reg ' + hexs(t + b'0'), 'new', 'attach 1 0 0 %d' % len(t), 'tobool 1']
+        if len(t) <= 39 and 0 not in t:
+            ops += ['lit ' + hexs(t), 'tobool 2']
+        ops += ['fromcstr ' + hexs(t), 'tobool %d' % (3 if len(ops) == 8 else 2), 'pluseq 0 0', 'tobool 0', 'pluslit 0 2e30', 'tobool %d' % (4 if len(ops) == 8 else 3)]
+        out.append(ops)
+    return out
+
 
 # comparisons of near-copies: copy, change one byte / case / length, compare (binary alphabet: 0x00, 0x80, 0xff)
 CMP_OPS = ['copy-mutate', 'copy-mutate', 'poke', 'poke', 'appc', 'appb', 'resize', 'lower', 'upper', 'attach', 'asg', 'eq', 'cmp', 'cmp',
@@ -545,6 +685,11 @@ SCOPE_ALPHABET = [
     'eqlit 3 78797a', 'eqlit 0 6162', 'eqlit 1 63', 'eqlit 0 616263', 'splitset 3 79 0', 'splitset 0 62 1', 'fromprintf 7071',
     'stat scmp 3 0 0', 'stat scmpn 1 2 1', 'stat scmpi 0 1 0', 'stat scmpin 3 3 2', 'stat eqin 1 2 1', 'stat sstarts 3 0 0', 'stat sstarts 1 1 0',
     'stat slen 3 3 0', 'stat sfindc 3 3 122', 'stat sfindlc 0 0 98',
+    # round 3
+    'pluseq 1 1', 'pluseq 0 3', 'pluseq 3 3', 'pluseq 2 0', 'pluseqc 3 33', 'pluseqc 0 33', 'pluseqc 1 33', 'plus 1 1', 'plus 3 0', 'plus 0 0', 'plus 3 3',
+    'pluslit 3 7a', 'pluslit 1 -', 'pluslit 0 6364', 'plusasg 1 1 1', 'plusasg 3 3 0', 'plusasg 0 1 0', 'plusasg 2 3 3', 'plusasg 3 0 3', 'plusasg 1 2 1',
+    'frombool 1', 'frombool 0', 'fromcstr 7071', 'fromcstr -', 'fromcstrn 70007172 3', 'fromcstrn 7071 0', 'tobool 3', 'tobool 0', 'char lower 90',
+    'char isspace 160', 'stat sfinds 3 0 0', 'stat sfinds 3 3 0', 'stat sfindo 3 3 0', 'stat sfindo 0 1 0',
 ]
 
 
@@ -552,6 +697,7 @@ SCOPE3_ALPHABET = [
     'apps 1 1', 'apps 0 3', 'apps 3 1', 'pres 1 1', 'pres 3 3', 'pres 0 2', 'appb 1 6162636465', 'appc 3 33', 'asg 1 0', 'asg 3 1', 'asg 3 3',
     'copy 3', 'drop', 'clear 1', 'resize 1 5 120', 'resize 3 2 120', 'reserve 1 9', 'poke 1 0 90', 'cstr 3', 'attach 1 0 1 2', 'reps 3 3 1',
     'join 1 44 1 3', 'lower 2', 'printf 3 7071', 'trim 3 78', 'appo 1 0 2', 'appo 3 1 2', 'printfs 1 3c 3e',
+    'pluseq 3 3', 'pluseq 1 0', 'plus 3 1', 'plusasg 1 1 1', 'plusasg 3 3 0', 'plusasg 0 3 0', 'pluslit 3 7a',
 ]
 
 
@@ -565,13 +711,21 @@ class C06(Check):
     level_text = ('Theorems in Coq (closed under the global context) about an executable model of the lazy-copy String that mirrors '
                   'String.hpp/String.cpp method by method (variables = data pointers to emptyData / the inline non-owning descriptor / '
                   'a heap block with cells, len, capacity, ref; immutable foreign regions for literals and attached memory; every read '
-                  'and write bounds-checked): for ALL histories of 56 operations over any number of String variables, '
+                  'and write bounds-checked): for ALL histories of 66 operations over any number of String variables, '
                   'string_refines_values (the model never fails with a memory error and the values and query results equal those of k '
                   'independent byte lists under pure reference functions - construction, attach, copy/assign, append/prepend incl. the '
                   'String itself and a pointer INTO its own text as argument, resize/reserve/clear, write through char*, '
                   'replace(char,char), replace(String,String), case mapping via the tables regenerated from String.cpp, trim, substr, '
                   'token, split into List and HashSet, join, printf/fromPrintf bookkeeping incl. printf with the own text as argument, '
-                  '==, == literal, compare*, equalsIgnoreCase, find*, startsWith/endsWith, length, the static const char* helpers), '
+                  '==, == literal, compare*, equalsIgnoreCase, find*, startsWith/endsWith, length, the static const char* helpers incl. '
+                  'find(in, str)/findOneOf(in, chars); since round 3 also operator+=(String), operator+=(char), operator+(String), '
+                  'operator+(literal) and d = a + b with d, a, b coinciding in any pattern (the temporaries String(*this) / '
+                  'String(literal) and the by-value result are variables of the model that are created, copied and destroyed in the '
+                  'code\'s order), fromBool (a view of a literal), fromCString(str) / (str, len), toBool, and the static char '
+                  'functions toLowerCase(c)/toUpperCase(c)/isSpace/isAlphanumeric/isAlpha/isDigit/isLowerCase/isPrint/isPunct/'
+                  'isUpperCase/isHexDigit), char_functions_match_tables (for all 256 bytes the model\'s table lookups and range tests '
+                  'equal the reference character sets, and the classifiers agree with the regenerated lowerCaseMap/upperCaseMap: upper '
+                  'case letters = what lowerCaseMap moves, ...), plus_temporaries_die, '
                   'cstr_nul_terminated, copies_independent, foreign_memory_unchanged/foreign_memory_kept (structural: the model has no '
                   'writer for foreign regions; the clause is carried by run_memory_safe - a write through a non-owning descriptor '
                   'would be an error - and by the harness), self_args_as_if_copied, heap_invariant (ref = number of handles, no handle '
@@ -600,9 +754,15 @@ class C06(Check):
                   '(off + len < |buffer|). find(x, start)/token(char, start) with start >= length() answer not-found/empty also for an '
                   'empty needle (choices listed in the header of StrSpec.v). (5) split is observed through its List / sorted HashSet '
                   'result; the temporaries it creates, and the copies the static-helper ops run on, are not part of the model state. '
-                  '(6) Not driven: scanf, toInt/toDouble/fromInt..., toBool, fromHex/fromBase64 (C18), hash(), operator+, fromCString '
-                  '(= String(str, length(str)), both parts driven), the static find(in, str)/findOneOf/findLast(in, str)/findLastOf '
-                  '(thin wrappers of strstr/strpbrk, the members call the same code), isSpace/isAlpha.... (7) Sizes are assumed < 2^63 '
+                  '(6) Not driven and not modelled: scanf (vsscanf of libc on the C-string view: formatting/parsing is outside the property '
+                  'text), toInt/toUInt/toInt64/toUInt64/toDouble and fromInt/.../fromDouble (atoi/strtoul/printf wrappers), '
+                  'fromHex/fromBase64 (C18), hash() (C02). The classifiers isAlphanumeric ... isHexDigit call libc <ctype.h> on (uchar)c: '
+                  'the model holds them as the "C"-locale reference functions (the harness never calls setlocale), trusted like strstr; '
+                  'isSpace, toLowerCase(c), toUpperCase(c) are the code\'s own range test on the SIGNED char / table lookups. toBool reads '
+                  'the C-string view and is specified for NUL-free values; its reference (StrSpec.s_tobool) is the reading of the code\'s '
+                  'evident intent: false = empty, "false" in any case, "0", zeros around one decimal point with at least one zero; '
+                  'everything else - also "00" and "0.0." - is true. fromBool returns a String describing a literal of the library: the '
+                  'harness adopts that literal as a (guard-less) foreign buffer and re-reads it after every operation. (7) Sizes are assumed < 2^63 '
                   '(no usize wrap). (8) foreign_memory_unchanged/foreign_memory_kept hold by construction of the model (no operation '
                   'writes a region); what excludes writes to literal/attached memory is run_memory_safe (Err WriteForeign never occurs) '
                   'plus the guarded foreign memory of the harness. Trusted: Coq kernel, StrSpec.v as the reading of the property, '
@@ -617,13 +777,19 @@ class C06(Check):
             '== are the value, one byte off, one longer, one shorter; streams: core (operations of the heap proof), text (all '
             'operations, NUL-free), binary (embedded NUL, 0x80, 0xff), selfargs, compare (copy, change one byte / case / length, then '
             '==, compare*, equalsIgnoreCase, static helpers, trim; binary alphabet), long (60-140 operations, lengths to 300, '
-            'printf around the 200/203 boundary), scope1/scope2 (EXHAUSTIVE: every history of 1 resp. 2 operations of an '
-            '89-operation alphabet after a fixed prologue with a literal, two variables sharing a block and an unterminated view). A '
+            'printf around the 200/203 boundary), concat / concat-binary (round 3: += and + with String / char / literal, d = a + b '
+            'with the six coincidence patterns ddd dda dad daa dab, 50% self or sharer arguments, fromBool, fromCString, between '
+            'attach / copy / assign / clear / resize / reserve), chars (EXHAUSTIVE: the 11 static char functions on all 256 bytes), '
+            'tobool (EXHAUSTIVE: toBool on every text over {0 . x} up to length 5 (thorough: 6) and 35 border texts, held as '
+            'owned buffer / unterminated attached window / literal / fromCString result / after += / after + literal), '
+            'scope1/scope2 (EXHAUSTIVE: every history of 1 resp. 2 operations of a '
+            '123-operation alphabet after a fixed prologue with a literal, two variables sharing a block and an unterminated view). A '
             'case is non-trivial when the implementation\'s own dump shows at least two of {block shared by two variables, view, '
             'unterminated view, capacity change, self argument} and it has >= 3 mutating operations; distinct = distinct op text.')
     assumptions = ['sizes < 2^63 (no usize wrap-around in capacity arithmetic)',
                    'printf/fromPrintf: formatting is an input (the operation carries the bytes vsnprintf produced; for printf with the own text as argument: the bytes around it)',
                    'strstr/strpbrk/strchr of libc behave as first-occurrence search on NUL-free text (reference functions in StrModel.v)',
+                   'isalnum/isalpha/isdigit/islower/isprint/ispunct/isupper/isxdigit of libc classify (uchar)c as in the "C" locale (reference functions m_is* in StrModel.v)',
                    'an indeterminate byte at str[len] is taken as non-zero by the C-string view (either answer yields a terminated view)',
                    'StrSpec.v is the reading of the property text (values = byte lists, pure reference functions, domain predicate pre; its header lists what pre restricts and the choices made where the text is silent)']
     per_case_timeout = 1
@@ -674,7 +840,7 @@ class C06(Check):
             c = [l for l in cases[i] if not l.startswith('@')]
             opl = c[k] if k < len(c) else ('end' if k == len(c) else '?')
             t = opl.split()
-            selfarg = (len(t) > 2 and t[0] in ('apps', 'pres', 'asg', 'reps', 'join', 'eq', 'cmp', 'starts', 'ends') and t[1] in t[2:]) \
+            selfarg = (len(t) > 2 and t[0] in ('apps', 'pres', 'asg', 'reps', 'join', 'eq', 'cmp', 'starts', 'ends', 'pluseq', 'plus', 'plusasg') and t[1] in t[2:]) \
                 or (t and t[0] in ('appo', 'printfs'))
             if got.startswith('!'):
                 kind = got.split(' | ')[0].strip()
@@ -719,6 +885,14 @@ class C06(Check):
                           note='copy, change one byte / the case / the length, then ==, compare*, equalsIgnoreCase, startsWith/endsWith, trim: byte strings with embedded NUL, 0x80, 0xff'))
         out.append(Stream('long', self.gen_stream(rng, 2000 if th else 60, (60, 140), big=True),
                           note='long histories, lengths up to 300 (printf first/second pass, capacity growth)'))
+        out.append(Stream('concat', self.gen_stream(rng, 25000 if th else 1200, (5, 22), self_bias=0.5, ops=CONCAT_OPS),
+                          note='operator+= / operator+ with a String, a char, a literal, d = a + b with every coincidence pattern of d, a, b (50% self / sharer arguments), fromBool, fromCString, between representation changes'))
+        out.append(Stream('concat-binary', self.gen_stream(rng, 8000 if th else 400, (5, 18), binary=True, self_bias=0.5, ops=CONCAT_OPS),
+                          note='the same on byte strings with embedded NUL bytes'))
+        out.append(Stream('chars', char_cases(), exhaustive=True,
+                          note='toLowerCase(c), toUpperCase(c), isSpace ... isHexDigit on every byte 0..255 (11 x 256 calls)'))
+        out.append(Stream('tobool', tobool_cases(6 if th else 5), exhaustive=True,
+                          note='toBool on every text over {0 . x} up to length %d and on listed border texts ("false" in mixed case, "0", "00", "0.", ".0", ".", ...), as owned buffer, unterminated attached window, literal, fromCString, after += and +' % (6 if th else 5)))
         out.append(Stream('scope1', scope_cases(1, SCOPE_ALPHABET), exhaustive=True,
                           note='every single operation of a %d-operation alphabet after a fixed prologue (literal, shared owned, unterminated view)' % len(SCOPE_ALPHABET)))
         out.append(Stream('scope2', scope_cases(2, SCOPE_ALPHABET), exhaustive=True,
@@ -746,12 +920,14 @@ class C06(Check):
             prevcaps = caps
         for l in case:
             t = l.split()
-            if t[0] in ('apps', 'pres', 'asg', 'eq', 'cmp', 'starts', 'ends') and len(t) > 2 and t[1] == t[2]: feats.add('self')
+            if t[0] in ('apps', 'pres', 'asg', 'eq', 'cmp', 'starts', 'ends', 'pluseq', 'plus') and len(t) > 2 and t[1] == t[2]: feats.add('self')
+            if t[0] == 'plusasg' and (t[1] == t[2] or t[1] == t[3]): feats.add('self')
             if t[0] == 'reps' and (t[1] == t[2] or t[1] == t[3]): feats.add('self')
             if t[0] in ('appo', 'printfs'): feats.add('self')
             if t[0] == 'stat' and t[2] == t[3]: feats.add('self')
         muts = sum(1 for l in case if l.split()[0] not in ('new', 'lit', 'buf', 'fill', 'cap', 'reg', 'eq', 'len', 'cmp', 'findc', 'findlc', 'starts', 'ends',
-                                                            'eqlit', 'stat', 'splitset', 'fromprintf'))
+                                                            'eqlit', 'stat', 'splitset', 'fromprintf', 'frombool', 'fromcstr', 'fromcstrn',
+                                                            'tobool', 'char'))
         return len(feats) >= 2 and muts >= 3
 
     def extra_checks(self, tier, rng, ctx):
